@@ -2,7 +2,8 @@
    t: a reference to an ELF sections tag with L section bytes behind its 20-byte fixed
    part (elf_tag_ok: inside memory - what cast establishes).  elf_n/elf_es/elf_sh: the
    stored entry count, entry size and string-table index. *)
-Require Import Bytes Outcome Layout Common TagType Mbi MbiTags Strings MbiAccess StringFacts C19Proofs.
+Require Import Bytes Outcome Layout Common TagType Mbi MbiTags Strings MbiAccess Big StringFacts C19Proofs BigProofs ElfBigProofs.
+From Coq Require Import Lia List.
 
 (* sections() accepts exactly the tags whose n entries and string-table entry fit; everything else panics *)
 Theorem C19_accept_reject : forall p m t L, elf_tag_ok m t L ->
@@ -89,3 +90,29 @@ Theorem C19_nth : forall fuel p m it items k,
   elf_collect fuel p m it = (items, Val tt) -> rmap fst (elf_nth p m it k) = Val (nth_error items k).
 Proof. exact elf_nth_collect. Qed.
 Print Assumptions C19_nth.
+
+(* ELF-sections tags with ANY number of entries (n copies of one in-use section header of 40 or 64 bytes, in a boot
+   information of its own): the typed getter finds the tag with n*es section bytes; sections() accepts it exactly when
+   it is empty or shndx designates one of its entries; the iterator then yields the n entries at 28 + j*es, in order,
+   with the designated string-table entry.  Closed form of the domain `bigelf` (n = 2^16 and more; a 2.6 MB tag). *)
+Theorem C19_big : forall p a entry n sh,
+  len entry = 40 \/ len entry = 64 -> is_unused (elf_section_type (le (slice entry 4 4))) = false ->
+  44 + N.of_nat n * len entry < pow2_32 -> sh < pow2_32 -> a mod 8 = 0 ->
+  let es := len entry in
+  let m := {| m_base := a; m_bytes := elf_big_region n es sh entry |} in
+  let T := 16 + N.of_nat 1 * len (elf_big_tag n es sh entry) in
+  let t := {| t_off := 8; t_meta := Some (N.of_nat n * es) |} in
+  get_tag p KElfSections m {| d_off := 0; d_plen := T - 8 |} = Val (Some t) /\
+  elf_sections p m t =
+    (if (N.of_nat n =? 0) || (sh <? N.of_nat n)
+     then Val {| el_cur := 28; el_rem := N.of_nat n; el_es := es; el_str := 28 + (if N.of_nat n =? 0 then 0 else sh * es) |}
+     else Panic) /\
+  forall fuel, (n < fuel)%nat ->
+    elf_collect fuel p m (it_j entry n sh 0) = (map (sec_j entry n sh) (seq 0 n), Val tt).
+Proof.
+  intros p a entry n sh H1 H2 H3 H4 Ha es m T t.
+  split; [apply elf_big_get; assumption|].
+  split; [apply elf_big_sections; assumption|].
+  intros fuel Hf. apply elf_big_collect; try assumption; lia.
+Qed.
+Print Assumptions C19_big.
